@@ -117,6 +117,14 @@ def c01_param_backslash_lost(case, observed, expected):
     return any("\\" in str(v) for _k, v in a[2])
 
 
+def c01_suite_split_backslash(case, observed, expected):
+    """a content line seen in the repository's own tests whose parameter section contains a backslash or a
+    %XX sequence: parts() reads it through the placeholder mechanism (C08-K1), not as RFC 5545 3.2 does;
+    suppressed only when the observed split is exactly the pinned mirror's"""
+    line = (case.get("event") or {}).get("line", "")
+    return bool(case.get("impl_equal")) and isinstance(line, str) and ("\\" in line or "%" in line)
+
+
 # ---------------------------------------------------------------- C02
 def c02_attach_binary(case, observed, expected):
     return case.get("n") == "ATTACH" and case.get("k") == "binary" and isinstance(observed, dict) and observed.get("decoded_type") == "URI" \
@@ -157,3 +165,9 @@ def c12_cross_order(case, observed, expected):
     (observed under both providers: dateutil's tzical also compares wall times)"""
     z = case.get("zone") or []
     return [o["name"] for o in z] == ["A", "B"] and bool(case.get("impl_equal"))
+
+
+def c02_unidentifiable_tz(case, observed, expected):
+    """an aware date-time whose tzinfo is a bare fixed offset no IANA zone of the identification table matches
+    (pytz.FixedOffset, datetime.timezone(+01:30)): written without a resolvable TZID and read back naive"""
+    return case.get("tzkind") in ("pytz-fixed-60", "stdlib-plus0130") and bool(case.get("naive_back"))
